@@ -59,12 +59,14 @@ def record_case(spec):
 
 def run(ev, rep, tier, rng, tmp):
     Gs = list(F.bnf_family(3))
-    pick = F.sample(Gs, 1500 if tier == 'quick' else 9000, rng)
+    pick = F.sample(Gs, C.scale(1500 if tier == 'quick' else 9000), rng)
     specs = []
     for G in pick:
         # only grammars whose terminals are all used keep X/Y in the lexer; others reject in the lexer (skipped)
         ins = F.enriched_inputs(G, 3, extra_len=1, rng=rng)
         specs.append((F.grammar_text(G), ins))
+    for G in F.rand_family(C.scale(700 if tier == 'quick' else 6000), rng):
+        specs.append((F.grammar_text(G, term_defs=F.TERM3), F.enriched_inputs(G, 2, extra_len=3, rng=rng, alphabet=('X', 'Y', 'Z'))))
     res = C.pmap(record_case, specs)
     cases = [c for r in res for c in r]
     if len(cases) < 1000:
